@@ -330,14 +330,34 @@ func (r *stepRun) noteProbes(sig string, inTry bool) {
 		{"Otto.Call", "inject_inside_otto_call"},
 		{"Value.Call", "inject_inside_value_call"},
 		{"Otto.Eval", "inject_inside_otto_eval"},
-		{"getProperty", "inject_inside_getter_path"},
+		{"property.get", "inject_inside_getter"},
+		{"property.put", "inject_inside_setter"},
+		{"cmplEvaluateNodeStatement<(*runtime).cmplEvaluateNodeTryStatement", "inject_inside_finally"},
+		{"builtinArrayForEach", "inject_inside_foreach_cb"},
+		{"builtinArrayMap", "inject_inside_map_cb"},
+		{"cmplEvaluateNodeCallExpression<(*runtime).cmplEvaluateNodeCallExpression", "inject_during_argument_or_callee_evaluation"},
+		{"cmplFunctionDeclaration", "inject_during_declaration_instantiation"},
 		{"cmplEvaluateNodeSwitchStatement", "inject_inside_switch"},
-		{"cmplEvaluateNodeLabelledStatement", "inject_inside_labelled"},
 		{"DefaultValue", "inject_inside_coercion"},
 	} {
 		if strings.Contains(sig, pr[0]) {
 			r.st.Probe(pr[1])
 		}
+	}
+	if r.vm.VerifLabelCount() > 0 {
+		r.st.Probe("inject_with_label_pending")
+	}
+	if lim := r.c.StackLimit; lim > 0 && r.vm.VerifScopeDepth() >= lim {
+		r.st.Probe("inject_at_max_depth")
+	}
+	np := 0
+	for _, q := range r.pend {
+		if q.sent && !q.delivered {
+			np++
+		}
+	}
+	if np >= 1 {
+		r.st.Probe("inject_with_another_irq_pending")
 	}
 	if strings.Count(sig, "Otto.Run") > 1 {
 		r.st.Probe("inject_inside_nested_run")
